@@ -303,6 +303,18 @@ def check_typed(case):
         if len(back) != 1 or back[0].dump() != dump:
             vs.append(V("built message survives a serialise/decode round trip", f"roundtrip/{tag}",
                         f"{len(back)} messages; equal={back[0].dump() == dump if back else None}"))
+        else:
+            # the application edits the decoded copy in place (a relay rewriting identities); the same bytes decoded again - and the
+            # message that was built - are unaffected: decoded messages do not share AVP objects with one another
+            edited = 0
+            for a in back[0].avps:
+                if type(a).__name__ in ("OriginHostAVP", "OriginRealmAVP", "DestinationHostAVP", "DestinationRealmAVP", "UserNameAVP", "SessionIdAVP"):
+                    a.data = b"edited.in.place"
+                    edited += 1
+            again = DiameterMessage.load(dump)
+            if len(again) != 1 or again[0].dump() != dump or msg.dump() != dump:
+                vs.append(V("built message survives a serialise/decode round trip - also after an earlier decoded copy was edited in place",
+                            f"roundtrip-after-edit/{tag}", f"{edited} AVPs of the first decoded copy were edited; second decode equal={again[0].dump() == dump if again else None}"))
     except (Exception,) + errors as e:
         vs.append(V("built message survives a serialise/decode round trip", f"roundtrip-raises/{tag}/{type(e).__name__}", repr(e)))
     return "ok", None, vs
